@@ -200,6 +200,15 @@ func c13Gen(t *rapid.T) c13Case {
 	if float64(c.R2) > piR {
 		c.R2 = F(piR)
 	}
+	if rapid.IntRange(0, 11).Draw(t, "antipodal") == 0 {
+		// two large circles whose centres are a few metres short of antipodal and whose radii add up to the centre
+		// distance give or take a few metres: the distance has to be right to well under a metre up there too
+		c.Kind = "near-antipodal"
+		r = rapid.Float64Range(1e6, piR-1e6).Draw(t, "ra")
+		pd = piR - rapid.Float64Range(0.05, 12).Draw(t, "short")
+		plat, plon = sphere.Destination(lat, lon, pd, brg).LatLon()
+		c.R2 = F(pd - r + rapid.SampledFrom([]float64{-5, -1.5, 1.5, 5}).Draw(t, "slack"))
+	}
 	c.Lat, c.Lon, c.R, c.PLat, c.PLon = F(lat), F(lon), F(r), F(plat), F(plon)
 	c.Steps = rapid.SampledFrom([]int{-1, 0, 2, 3, 4, 5, 6, 7, 10, 64, 64, 64, 99, 4096}).Draw(t, "steps")
 	return c
